@@ -31,6 +31,8 @@ class WalkSuite(Suite):
             elif r < 0.3:
                 target = rng.choice([b"nonexistent", b".", b"a/../a", b"./"])
             ops.append({"op": "walk", "tree": tree, "target": hx(target)})
+            if rng.random() < 0.1:
+                ops[-1]["root_symlink"] = True     # the root path given to NewFS ends in a symlink to the directory
         return ops
 
     def prepare_model(self, ops, impl=None):
